@@ -456,6 +456,12 @@ def c18_custom(pid, tier, plan, scr, hbin, specdir):
     cov["samples"].append(dict(source="recording", steps=[dict(a=r["a"], args=r["args"]) for r in first if r["a"] != "KeySample"][:3]))
     recs = [(out, "tlc-enumerated KV behaviours:%s x %d instantiations" % (kv, runs), len(behs) * runs)]
     violations, known_hits = classify(pid, recs, cov, scr, specdir, "TraceKeys.tla", "TraceKeys.cfg")
+    # several registrations with records each, exported and re-imported at random block boundaries: after the import every
+    # registration must read exactly its own records (Trace.tla; differences in records are tagged C18)
+    rec = vlib.record_random(hbin, "expreg", sd, 200 if tier == "quick" else 1200, 3 if tier == "quick" else 10, scr)
+    v2, k2 = classify(pid, [(rec, "random:expreg (registrations with records x export/import)", 3 if tier == "quick" else 10)], cov, scr, specdir)
+    violations += v2
+    known_hits.update(k2)
     return cov, violations, known_hits
 
 
